@@ -19,6 +19,6 @@ const Config cfgs[] = {
                                                                     xenium::policy::backoff<xenium::exponential_backoff<2>>>>},
 };
 QueueHarness h("queues_ram", cfgs, sizeof(cfgs) / sizeof(cfgs[0]));
-struct Reg { Reg() { xsim::register_harness(&h); } } reg;
+struct Reg { Reg() { xsim::register_harness(&h); hx::register_reclaimer_probes(); xsim::fn_pair_probe("ramalhete_queue: push overlaps pop", "ramalhete_queue&4pushE", "ramalhete_queue&3popE"); xsim::fn_pair_probe("ramalhete_queue: two pushes overlap", "ramalhete_queue&4pushE", "ramalhete_queue&4pushE"); } } reg;
 } // namespace
 XSIM_MAIN()
